@@ -25,7 +25,7 @@ if warm:
         cs = list(cases)
         rng.shuffle(cs)
         shuffled.append((gr, cs[: len(cs) // 2] + cases))
-    res = ec.eval_py(P, mode, shuffled)
+    res = ec.eval_py(P, mode, shuffled, aborts=warm)
     out = []
     for (glines, exp), (gr, cases) in zip(res, gcases):
         skip = len(exp) - len([1 for s, i in cases for _ in ec.case_lines(mode, s, i)])
